@@ -2,7 +2,9 @@
 """py2coq_numpy.py — twelfth translation target of tools/py2coq.py: the in-place butterfly of application/matrix_decomposition.py
 (matrix_decomposition_diagonal: a while loop over the stride h, a for loop over the blocks, slice reads and slice assignments on one array).
 
-Contracts (numpy; trusted): a 1-D ndarray is (its ndim, the list of its entries); x.shape[0] is the number of entries (the code reads it only after
+Contracts (numpy; trusted): a 1-D ndarray is (its ndim, the list of its entries); the 2-D argument of matrix_decomposition is read only through ndim, shape[0], shape[1]
+and _mat_to_vec(matrix) — the Pauli-order vectorisation (Model/Decomp.vec; its source, a recursion over index arrays, is pinned and compared by the differential check) —
+which are the four parameters of the translation; 1j * v multiplies every entry by i; x.shape[0] is the number of entries (the code reads it only after
 it has checked ndim == 1); x.astype(np.complex128) is a copy with the same values; b[a:c] reads the entries a..c-1 (Python's clamping), as a value —
 the right-hand sides of `b[..], b[..] = e1, e2` are evaluated completely before the first store, so that x, y being views of b does not matter;
 `b[a:c] = v` replaces those entries and raises ValueError when v has another length; + and - are entry-wise on arrays of one length (ValueError
@@ -38,7 +40,9 @@ class NFn(SFn):
         for a in node.args.args: a.annotation = ast.parse("int").body[0].value
         SFn.__init__(self, tr, node, coq, False)
         a = self.arr[0]
-        self.params = {a + "_ndim": Z, a: VEC}
+        # a 2-D array that is only read through ndim, shape and _mat_to_vec: (ndim, shape[0], shape[1], _mat_to_vec(matrix))
+        self.two_d = any(isinstance(x, ast.Call) and ast.unparse(x.func) == "_mat_to_vec" for x in ast.walk(node))
+        self.params = {a + "_ndim": Z, a + "_shape0": Z, a + "_shape1": Z, a + "_vec": VEC} if self.two_d else {a + "_ndim": Z, a: VEC}
         self.ret = VEC
         self.fuel = True
 
@@ -47,6 +51,14 @@ class NFn(SFn):
         src = ast.unparse(e)
         a = self.arr[0]
         if src == a + ".ndim": return "v_%s_ndim" % a, Z, []
+        if self.two_d:
+            if src in (a + ".shape[0]", a + ".shape[1]"): return "v_%s_shape%s" % (a, src[-2]), Z, []
+            if src == "_mat_to_vec(%s)" % a: return "v_%s_vec" % a, VEC, []
+            if isinstance(e, ast.Name) and e.id == a: bad(e, "the matrix itself is read (only ndim, shape and _mat_to_vec(matrix) are modelled)")
+        if isinstance(e, ast.BinOp) and isinstance(e.op, ast.Mult) and isinstance(e.left, ast.Constant) and e.left.value == 1j:
+            c, t, g = E(e.right)
+            if t != VEC: bad(e, "1j * %r" % (t,))
+            return "(vnimul %s)" % c, VEC, g
         if isinstance(e, ast.Subscript) and ast.unparse(e.value).endswith(".shape") and ast.unparse(e.slice) == "0":
             c, t, g = E(e.value.value)
             if t != VEC: bad(e, "shape of %r" % (t,))
@@ -132,12 +144,21 @@ class NFn(SFn):
 
 
 class NumpyTranslator:
-    WANT = ["matrix_decomposition_diagonal"]
+    WANT = ["matrix_decomposition_diagonal", "matrix_decomposition"]
     def __init__(self, repo):
         path = os.path.join(repo, "src", "paulie", "application", "matrix_decomposition.py")
         self.tree = ast.parse(open(path, newline=None, encoding="utf-8-sig").read())
         self.fns = {}
         self.defs = {n.name: n for n in self.tree.body if isinstance(n, ast.FunctionDef)}
+        def body_of(n):
+            return [ast.unparse(x) for x in n.body if not (isinstance(x, ast.Expr) and isinstance(x.value, ast.Constant))]
+        want_m2v = ["log2n = int(matrix.shape[0]).bit_length() - 1", "row = np.zeros(4 ** log2n, dtype=np.int64)", "col = np.zeros(4 ** log2n, dtype=np.int64)",
+                    "_pauli_ord(row, col, log2n)", "flat_index = (1 << log2n) * row + col", "return matrix.reshape(-1)[flat_index].astype(np.complex128)"]
+        if "_mat_to_vec" not in self.defs or body_of(self.defs["_mat_to_vec"]) != want_m2v: raise Unsupported("pinned source of _mat_to_vec changed")
+        want_po = ["if n == 1:\n    row[0], col[0] = (0, 0)\n    row[1], col[1] = (1, 1)\n    row[2], col[2] = (0, 1)\n    row[3], col[3] = (1, 0)\n    return", "_pauli_ord(row, col, n - 1)", "pw = 1 << 2 * (n - 1)",
+                   "row[pw:2 * pw] = row[:pw] + (1 << n - 1)", "col[pw:2 * pw] = col[:pw] + (1 << n - 1)", "row[2 * pw:3 * pw] = row[:pw]", "col[2 * pw:3 * pw] = col[:pw] + (1 << n - 1)",
+                   "row[3 * pw:4 * pw] = row[:pw] + (1 << n - 1)", "col[3 * pw:4 * pw] = col[:pw]"]
+        if "_pauli_ord" not in self.defs or body_of(self.defs["_pauli_ord"]) != want_po: raise Unsupported("pinned source of _pauli_ord changed: %r" % (body_of(self.defs.get("_pauli_ord")) if "_pauli_ord" in self.defs else None,))
         if "import numpy as np" not in [ast.unparse(n) for n in self.tree.body if isinstance(n, ast.Import)]: raise Unsupported("numpy is no longer imported as np")
 
     HEADER = """(* GENERATED by tools/py2coq.py (py2coq_numpy.py) from src/paulie/application/matrix_decomposition.py — do not edit *)
@@ -153,6 +174,7 @@ Definition nalign (f : gi -> gi -> gi) (a b : num) : num :=
 Definition vnadd (x y : list num) : list num := map (fun p => nalign gadd (fst p) (snd p)) (combine x y).
 Definition vnsub (x y : list num) : list num := map (fun p => nalign gsub (fst p) (snd p)) (combine x y).
 Definition vnhalf (x : list num) : list num := map (fun a => (fst a, S (snd a))) x.
+Definition vnimul (x : list num) : list num := map (fun a => (gmul gI (fst a), snd a)) x.
 (* b[a:c] = v *)
 Definition slice_assign {A} (l : list A) (a c : Z) (v : list A) : list A := firstn (clamp l a) l ++ v ++ skipn (Nat.max (clamp l a) (clamp l c)) l.
 (* range(a, b, s), s > 0 *)
